@@ -151,4 +151,34 @@ Section Liveness.
     | O => init
     | S k' => step (mask k') (net k') (sched k') (run k')
     end.
+
+  (* ---- passengers: the sender's *_BLOCKED PeriodicSync (model/Sync.v), one per window.  They are
+     driven by the run but never feed back into it (BLOCKED frames are advisory / keep-alive).
+     [lim] selects the window (lim_s: STREAM_DATA_BLOCKED, lim_c: DATA_BLOCKED); time = step index. *)
+  Definition blocked_on (lim : st -> N) (s : st) : bool := (pos s <? n) && (lim s <=? pos s).
+
+  Definition blk_ops (lim : st -> N) (rx : action) (s : st) (b : psy) (now : N)
+             (a : action) (nt : bool * bool) : list op :=
+    match a with
+    | ASend =>
+        (* acquire_flow_control_window: request_delivery(limit) when blocked; then on_transmit *)
+        (if blocked_on lim s then [OUpdate (lim s - platest b)] else [])
+        ++ [OTransmit 0 true now]
+        ++ (if fst nt && snd nt then [OAck (ppn b) (ppn b)] else [])
+    | ASendPto => [OLoss 0 varint_max; OTimeout now]     (* in-flight declared lost; timers polled *)
+    | _ =>
+        (* set_max_stream_data / on_max_data with a higher limit: stop_sync *)
+        if (match a, rx with ARxS, ARxS => true | ARxC, ARxC => true | _, _ => false end)
+           && (lim s <? lim (step false nt a s))
+        then [OStop] else []
+    end.
+
+  Fixpoint blk_run (lim : st -> N) (rx : action) (k : nat) : psy * list op :=
+    match k with
+    | O => (psy_init, [])
+    | S k' =>
+        let '(b, h) := blk_run lim rx k' in
+        let ops := blk_ops lim rx (run k') b (N.of_nat k') (sched k') (net k') in
+        (fold_left (fun b o => fst (psy_step b o)) ops b, h ++ ops)
+    end.
 End Liveness.
